@@ -272,6 +272,96 @@ Proof.
   destruct Hc as (_ & _ & C3). unfold conforming. repeat split; congruence.
 Qed.
 
+(* GETSCRIPT of a script that does not exist: NO NONEXISTENT, the call returns None *)
+Theorem getscript_missing_k_gen : forall f name st (w : sworld sstate) (k : kont),
+  c_auth st = true -> s_stream sstate w = [] -> live (s_peer sstate w) -> fault_now (s_peer sstate w) = FNone ->
+  assoc_get name (s_store (s_peer sstate w)) = None ->
+  let s := s_peer sstate w in
+  exists c s3,
+    runS (getscript (S f) name st k) w =
+    runS (k (set_err (bs "NONEXISTENT") (if ((c / 2) mod 4 =? 0)%N then [] else bs "refused") st) VNone)
+     (mkSW sstate s3 [] (S (s_n sstate w)) (s_conn sstate w) (Transport.s_tls sstate w)
+          (WSend (s_conn sstate w) (Transport.s_tls sstate w) (command_bytes (bs "GETSCRIPT") [AStr name]) :: s_log sstate w)) /\
+    live s3 /\ s_faults s3 = s_faults s /\ s_count s3 = S (s_count s) /\
+    s_store s3 = s_store s /\ s_active s3 = s_active s /\ s_cfg s3 = s_cfg s.
+Proof.
+  intros f name st w k Ha Hs Hc Hfn Hget s.
+  set (s2 := booked (bs "GETSCRIPT") [PStr name] s).
+  assert (Hstep : srv_step (bs "GETSCRIPT") (map decode_arg [AStr name]) s = Some (AnsNO (Some (bs "NONEXISTENT")), s2)).
+  { unfold srv_step, exec_command. eval_beq. cbv iota. cbn [map decode_arg].
+    change (s_store (booked (bs "GETSCRIPT") [PStr name] s)) with (s_store s). fold s in Hget. rewrite Hget. reflexivity. }
+  destruct (reply_bytes_spec StNO (Some (bs "NONEXISTENT")) (bs "refused") s2) as (c & s3 & Hp & Hrb & R1 & R2 & R3 & R4 & R5 & R6).
+  set (r := mk_reply StNO (Some (bs "NONEXISTENT")) (bs "refused") c) in *.
+  assert (Hrender : render_answer (AnsNO (Some (bs "NONEXISTENT"))) s2 = (render_reply r, s3)) by exact Hrb.
+  pose proof (srv_react_data_gen (bs "GETSCRIPT") [AStr name] s _ s2 _ s3 ltac:(cbn; tauto) Hc Hfn Hstep Hrender R1) as Hreact.
+  exists c, s3. split.
+  2:{ destruct Hc as (C1 & C2). pose proof (pick_count _ _ _ Hp) as Hpc.
+      unfold live. repeat split; try (rewrite R1; exact C1); try (rewrite R2; exact C2); try (rewrite R3; reflexivity);
+        try (rewrite Hpc; reflexivity); try (rewrite R4; reflexivity); try (rewrite R5; reflexivity); try (rewrite R6; reflexivity). }
+  unfold getscript, auth_required. rewrite Ha. unfold send_command. cbn [send_all].
+  change (runS (Send ?d ?p) w)
+    with (let '(s', reply) := srv_react (s_peer sstate w) d in
+          runS p (mkSW sstate s' (s_stream sstate w ++ reply) (S (s_n sstate w)) (s_conn sstate w)
+                       (Transport.s_tls sstate w)
+                       (WSend (s_conn sstate w) (Transport.s_tls sstate w) d :: s_log sstate w))).
+  fold s. rewrite Hreact, Hs. cbn [app].
+  match goal with |- context [runS _ ?w0] => set (w' := w0) end.
+  assert (Hok : reply_ok r).
+  { unfold r, reply_ok, mk_reply. cbn [r_code]. apply code_ok_known. cbn. tauto. }
+  rewrite (read_response_reply sstate srv_react srv_connect srv_tls r f None true [] 0 st _ w' [] Hok)
+    by (unfold w'; cbn; rewrite app_nil_r; reflexivity).
+  unfold r at 1. cbn [r_status mk_reply]. change (is_ok (Some (bs "NO"))) with false. cbv iota.
+  unfold code_of, text_of, r, mk_reply. cbn [r_code r_text].
+  destruct ((c / 2) mod 4 =? 0)%N; reflexivity.
+Qed.
+
+(* LOGOUT: answered OK whatever the state; the call returns None *)
+Theorem logout_k_gen : forall f st (w : sworld sstate) (k : kont),
+  s_stream sstate w = [] -> live (s_peer sstate w) -> fault_now (s_peer sstate w) = FNone ->
+  let s := s_peer sstate w in
+  exists s3,
+    runS (logout (S f) st k) w =
+    runS (k st VNone)
+     (mkSW sstate s3 [] (S (s_n sstate w)) (s_conn sstate w) (Transport.s_tls sstate w)
+          (WSend (s_conn sstate w) (Transport.s_tls sstate w) (command_bytes (bs "LOGOUT") []) :: s_log sstate w)) /\
+    live s3 /\ s_faults s3 = s_faults s /\ s_count s3 = S (s_count s) /\
+    s_store s3 = s_store s /\ s_active s3 = s_active s /\ s_cfg s3 = s_cfg s.
+Proof.
+  intros f st w k Hs (Hin & Hau) Hfn s. unfold fault_now in Hfn. fold s in Hin, Hau, Hfn.
+  set (s2 := booked (bs "LOGOUT") [] s).
+  destruct (reply_bytes_spec StOK None (bs "bye") s2) as (c & s3 & Hp & Hrb & R1 & R2 & R3 & R4 & R5 & R6).
+  set (r := mk_reply StOK None (bs "bye") c) in *.
+  assert (Hreact : srv_react s (command_bytes (bs "LOGOUT") []) = (s3, render_reply r)).
+  { unfold srv_react. rewrite Hin. cbn [app].
+    assert (Hlen : exists n, length (s_in (upd_in (command_bytes (bs "LOGOUT") []) s)) = S n) by (cbn; eauto).
+    destruct Hlen as (n & Hn). rewrite Hn. cbn [feed_loop].
+    change (s_in (upd_in (command_bytes (bs "LOGOUT") []) s)) with (command_bytes (bs "LOGOUT") []).
+    rewrite (command_exactly_one (bs "LOGOUT") [] ltac:(discriminate) ltac:(repeat constructor)).
+    change (upper (bs "LOGOUT")) with (bs "LOGOUT"). cbn [map].
+    assert (Hh : handle (PCmd (bs "LOGOUT") [] []) (upd_in [] (upd_in (command_bytes (bs "LOGOUT") []) s)) = (render_reply r, s3)).
+    { unfold handle. cbn [s_count upd_count s_faults upd_in pred]. rewrite Hfn. eval_beq. cbv iota.
+      assert (Hs' : upd_cmds (bs "LOGOUT", []) (upd_count (upd_in [] (upd_in (command_bytes (bs "LOGOUT") []) s))) = s2).
+      { unfold s2, booked, upd_cmds, upd_count, upd_in. cbn. rewrite Hin. reflexivity. }
+      rewrite Hs'. exact Hrb. }
+    rewrite Hh. cbn [app feed_loop]. rewrite R1. cbn. rewrite Hin. reflexivity. }
+  exists s3. split.
+  2:{ pose proof (pick_count _ _ _ Hp) as Hpc.
+      unfold live. repeat split; try (rewrite R1; exact Hin); try (rewrite R2; exact Hau); try (rewrite R3; reflexivity);
+        try (rewrite Hpc; reflexivity); try (rewrite R4; reflexivity); try (rewrite R5; reflexivity); try (rewrite R6; reflexivity). }
+  unfold logout, send_command. cbn [send_all].
+  change (runS (Send ?d ?p) w)
+    with (let '(s', reply) := srv_react (s_peer sstate w) d in
+          runS p (mkSW sstate s' (s_stream sstate w ++ reply) (S (s_n sstate w)) (s_conn sstate w)
+                       (Transport.s_tls sstate w)
+                       (WSend (s_conn sstate w) (Transport.s_tls sstate w) d :: s_log sstate w))).
+  fold s. rewrite Hreact, Hs. cbn [app].
+  match goal with |- context [runS _ ?w0] => set (w' := w0) end.
+  assert (Hok : reply_ok r) by (unfold r, reply_ok, mk_reply; cbn; auto).
+  rewrite (read_response_reply sstate srv_react srv_connect srv_tls r f None false [] 0 st _ w' [] Hok)
+    by (unfold w'; cbn; rewrite app_nil_r; reflexivity).
+  unfold r at 1. cbn [r_status mk_reply]. reflexivity.
+Qed.
+
 (* with the final continuation *)
 Theorem listscripts_against_server : forall f st (w : sworld sstate),
   c_auth st = true -> s_stream sstate w = [] -> conforming (s_peer sstate w) -> names_ok (s_peer sstate w) ->
